@@ -141,7 +141,8 @@ CHECKS = {
         category="model_checking", design_ref="DESIGN.md §4 C06",
         technique="explicit-state BFS on InterceptingLLUDPProxyProtocol.datagram_received (replay-from-history, canonical state hashing, deviation bounding) + bounded-exhaustive sweeps",
         text="BFS over the real datagram_received with 2 associations x 2 regions (shared simulator addresses, one IP): valid datagrams (UseCircuitCode first "
-             "contact/repeat, ordinary, reliable with acks, both directions) interleaved with 21 kinds of garbage, to depth 4 / 2 deviations (quick) and 5 / 3 "
+             "contact/repeat, ordinary, reliable with acks, retransmissions flagged RELIABLE|RESENT with the sender's last id / the peer's last id / an unseen id, "
+             "both directions) interleaved with 21 kinds of garbage, to depth 4 / 2 deviations (quick) and 5 / 3 "
              "(thorough) from two bases, states deduplicated on full session, circuit, tracker and address-map state. Plus exhaustive sweeps: every garbage/valid "
              "interleaving in two deep base states, the SOCKS framing law over addresses x ports x payload lengths, and every template x value row in both "
              "directions through one open circuit, with independently parsed SOCKS and LLUDP headers; plus repeated-garbage "
@@ -160,7 +161,9 @@ CHECKS = {
              "handle_lludp_message / handle_rlv_command / command) over 14 behaviours, every slot pair over a 10-behaviour list and (thorough) every one-slot-per-addon "
              "triple is executed on the real protocol, followed by a probe datagram per direction; wire emissions are attributed to Message objects and compared with a "
              "reference model. Separately all op sequences of length <=4 over {take, send, drop, queue, sendcopy} x 8 message variants on a bare ProxiedCircuit, "
-             "plus 352 async-subscription life-cycle cases (subscribe_async / wait_for left by every route) on the virtual loop.",
+             "plus 1056 async-subscription life-cycle cases (subscribe_async / wait_for on one and on two message names, resolved by either name, left by every "
+             "route; a later datagram of each other name must go out exactly once) on the virtual loop. A dropped reliable message is acknowledged to its sender "
+             "exactly once, also when the command or a hook failed (bookkeeping-drop-ack).",
         note="Behaviours are armed for the message under test only; pairs/triples use representative lists; async subscribers are represented by the sync take(); "
              "ownership combinations the proxy itself rejects with RuntimeError are checked for the wire and probe clauses only and counted; only Exception subclasses "
              "are raised; the reference model follows the documented dispatch rules."),
